@@ -17,7 +17,7 @@ CHECKS = {
     },
     'C01': {
         'technique': 'bounded-exhaustive enumeration of trees x formatting options and of all accepted input strings (explicit-state, real formatter/parser)',
-        'text': 'Every decoration of every tree shape within (3 nodes, 2 branches) over a wide alphabet, (3,3)/(3,4) over a mid alphabet and (4,4)/(4,5) over a narrow one (including empty nodes, missing concepts/targets, anonymous roles, strings with delimiters and escapes, alignments everywhere), crossed with 7 metadata variants, 5 indent values and both compact settings, is formatted and parsed back by the real code; every accepted string up to length 5/6 over 16 characters and every accepted token sequence up to length 7/8 is checked to be a fixed point of parse-then-format. Token sequences of the 10 texts are compared with the reference lexer.',
+        'text': 'Every decoration of every tree shape within (3 nodes, 2 branches) over a wide alphabet, (3,3)/(3,4) over a mid alphabet and (4,4)/(4,5) over a narrow one (including empty nodes, missing concepts/targets, anonymous roles, strings with delimiters and escapes, alignments everywhere), crossed with 8 metadata variants (incl. TAB, NBSP, unsorted keys), 5 indent values and both compact settings, is formatted and parsed back by the real code; every accepted string up to length 5/6 over 16 characters and every accepted token sequence up to length 7/8 is checked to be a fixed point of parse-then-format. Token sequences of the 10 texts are compared with the reference lexer.',
         'note': 'Trusted: pmc/ref/lexer.py for the whitespace-only clause; small-scope hypothesis beyond the bounds; non-str atoms and metadata that a comment cannot express are outside the statement.',
         'design_ref': 'DESIGN.md section 4 C01',
     },
